@@ -1311,4 +1311,239 @@ theorem wf_removeLocked (b : Mem) (k : Str) (hwf : WF b) : WF (removeLocked b k)
              fun s hs => hwf.nowl_w s (List.mem_of_mem_erase hs)⟩
     · exact hwf
 
+/-! ### a well-formed name renders fully qualified -/
+
+/-- number of backslashes at the end of `l`. -/
+def trailingBs (l : Str) : Nat := (l.reverse.takeWhile (· == '\\')).length
+
+theorem trailingBs_snoc (l : Str) (c : Char) :
+    trailingBs (l ++ [c]) = if c = '\\' then trailingBs l + 1 else 0 := by
+  unfold trailingBs
+  simp only [List.reverse_append, List.reverse_cons, List.reverse_nil, List.nil_append, List.cons_append,
+    List.takeWhile_cons]
+  by_cases h : c = '\\'
+  · simp [h]
+  · simp [h]
+
+theorem labelScan_snoc (e : Bool) (l : Str) (c : Char) :
+    labelScan e (l ++ [c]) =
+      match labelScan e l with
+      | none => none
+      | some true => some false
+      | some false => if c = '\\' then some true else if c = '.' then none else some false := by
+  induction l generalizing e with
+  | nil =>
+    cases e with
+    | true => simp [labelScan]
+    | false =>
+      simp only [List.nil_append, labelScan]
+  | cons a t ih =>
+    cases e with
+    | true => simp only [List.cons_append, labelScan]; exact ih false
+    | false =>
+      simp only [List.cons_append, labelScan]
+      by_cases hb : a = '\\'
+      · simp only [hb, if_true]; exact ih true
+      · simp only [hb, if_false]
+        by_cases hc : a = '.'
+        · simp [hc]
+        · simp only [hc, if_false]; exact ih false
+
+/-- the automaton's final state is the parity of the trailing backslashes. -/
+theorem labelScan_parity (r : Str) : ∀ s, labelScan false r.reverse = some s → (s = true ↔ trailingBs r.reverse % 2 = 1) := by
+  induction r with
+  | nil => intro s h; simp [labelScan] at h; subst h; simp [trailingBs]
+  | cons c t ih =>
+    intro s h
+    simp only [List.reverse_cons] at h ⊢
+    rw [labelScan_snoc] at h
+    rw [trailingBs_snoc]
+    cases hl : labelScan false t.reverse with
+    | none => rw [hl] at h; cases h
+    | some s' =>
+      rw [hl] at h
+      have ih' := ih s' hl
+      cases s' with
+      | true =>
+        simp only [Option.some.injEq] at h
+        subst h
+        have : trailingBs t.reverse % 2 = 1 := ih'.mp rfl
+        by_cases hb : c = '\\'
+        · simp [hb]; omega
+        · simp [hb]
+      | false =>
+        have hev : ¬ trailingBs t.reverse % 2 = 1 := fun e => by have := ih'.mpr e; cases this
+        simp only at h
+        by_cases hb : c = '\\'
+        · simp only [hb, if_true, Option.some.injEq] at h ⊢
+          subst h; simp; omega
+        · simp only [hb, if_false] at h ⊢
+          by_cases hc : c = '.'
+          · simp [hc] at h
+          · simp only [hc, if_false, Option.some.injEq] at h
+            subst h; simp
+
+theorem LabelOK_trailing_even (l : Str) (h : LabelOK l) : trailingBs l % 2 = 0 := by
+  have := labelScan_parity l.reverse false (by rw [List.reverse_reverse]; exact h.2)
+  rw [List.reverse_reverse] at this
+  have h' : ¬ trailingBs l % 2 = 1 := fun e => by have := this.mpr e; cases this
+  omega
+
+/-- the rendered form of a well-formed name ends with its last label and a dot. -/
+theorem join_snoc (n : Name) (hn : n ≠ []) : ∃ pre l, l ∈ n ∧ join n = pre ++ l ++ ['.'] ∧ (pre = [] ∨ ∃ p, pre = p ++ ['.']) := by
+  induction n with
+  | nil => exact absurd rfl hn
+  | cons a t ih =>
+    by_cases ht : t = []
+    · subst ht
+      exact ⟨[], a, by simp, by simp [join], Or.inl rfl⟩
+    · obtain ⟨pre, l, hl, hj, hp⟩ := ih ht
+      refine ⟨a ++ '.' :: pre, l, List.mem_cons_of_mem _ hl, by simp [join, hj], Or.inr ?_⟩
+      rcases hp with rfl | ⟨p, rfl⟩
+      · exact ⟨a, by simp⟩
+      · exact ⟨a ++ '.' :: p, by simp⟩
+
+/-- a well-formed name renders fully qualified in the sense of `dns.IsFqdn`. -/
+theorem isFqdn_pres (n : Name) (hn : NameOK n) : isFqdn (pres n) = true := by
+  by_cases h0 : n = []
+  · subst h0; decide
+  · rw [pres_of_ne_nil n h0]
+    obtain ⟨pre, l, hl, hj, hp⟩ := join_snoc n h0
+    have hev := LabelOK_trailing_even l (hn l hl)
+    rw [hj]
+    unfold isFqdn
+    simp only [List.reverse_append, List.reverse_cons, List.reverse_nil, List.nil_append, List.cons_append]
+    have hcnt : (List.takeWhile (fun x => x == '\\') (l.reverse ++ pre.reverse)).length = trailingBs l := by
+      unfold trailingBs
+      rw [List.takeWhile_append]
+      split
+      · rename_i hall
+        rcases hp with rfl | ⟨p, rfl⟩
+        · simp [hall]
+        · simp only [List.reverse_append, List.reverse_cons, List.reverse_nil, List.nil_append, List.cons_append,
+            List.takeWhile_cons]
+          have : ('.' == '\\') = false := by decide
+          simp [this, hall]
+      · rfl
+    simp only [hcnt, hev]
+    rfl
+
+
+/-! ### the file text -/
+
+/-- a key the host-file syntax leaves alone: not empty, no white space, no `#`. -/
+def CleanName (e : Str) : Prop := e ≠ [] ∧ ∀ c ∈ e, isSpace c = false ∧ c ≠ '#'
+
+theorem fieldsAux_nospace (e cur : Str) (h : ∀ c ∈ e, isSpace c = false) :
+    fieldsAux e cur = if cur.reverse ++ e = [] then [] else [cur.reverse ++ e] := by
+  induction e generalizing cur with
+  | nil => simp [fieldsAux]
+  | cons c t ih =>
+    have hc : isSpace c = false := h c (by simp)
+    simp only [fieldsAux, hc, Bool.false_eq_true, if_false]
+    rw [ih (c :: cur) (fun x hx => h x (List.mem_cons_of_mem _ hx))]
+    simp
+
+theorem dropWhile_head_false {α} (p : α → Bool) (l : List α) (h : ∀ a, l.head? = some a → p a = false) :
+    l.dropWhile p = l := by
+  cases l with
+  | nil => rfl
+  | cons a t => simp [h a rfl]
+
+theorem trimSpace_clean (e : Str) (h : ∀ c ∈ e, isSpace c = false) : trimSpace e = e := by
+  unfold trimSpace
+  rw [dropWhile_head_false isSpace e (by
+    intro a ha
+    exact h a (List.mem_of_mem_head? ha))]
+  rw [dropWhile_head_false isSpace e.reverse (by
+    intro a ha
+    exact h a (List.mem_reverse.mp (List.mem_of_mem_head? ha)))]
+  exact List.reverse_reverse e
+
+theorem parseLine_clean (e : Str) (h : CleanName e) : parseLine e = [e] := by
+  obtain ⟨hne, hc⟩ := h
+  have hsp : ∀ c ∈ e, isSpace c = false := fun c hc' => (hc c hc').1
+  have hhead : e.head? ≠ some '#' := by
+    intro hh
+    exact (hc '#' (List.mem_of_mem_head? hh)).2 rfl
+  have hany : e.any (· = '#') = false := by
+    rw [List.any_eq_false]
+    intro c hc'
+    simpa using (hc c hc').2
+  unfold parseLine
+  simp only [trimSpace_clean e hsp, hne, hhead, or_self, if_false, cutHash, hany, Bool.false_eq_true]
+  unfold fields
+  rw [fieldsAux_nospace e [] hsp]
+  simp [hne, hhead]
+
+/-- the end-of-line handling of `bufio.ScanLines` on the reversed accumulator. -/
+def stripCR (cur : Str) : Str :=
+  match cur with
+  | '\r' :: r => r.reverse
+  | _ => cur.reverse
+
+theorem scanLinesAux_line (l rest cur : Str) (h : ∀ c ∈ l, c ≠ '\n') :
+    scanLinesAux (l ++ '\n' :: rest) cur = stripCR (l.reverse ++ cur) :: scanLinesAux rest [] := by
+  induction l generalizing cur with
+  | nil =>
+    simp only [List.nil_append, List.reverse_nil, scanLinesAux, if_true]
+    rfl
+  | cons c t ih =>
+    have hc : c ≠ '\n' := h c (by simp)
+    simp only [List.cons_append, scanLinesAux, hc, if_false]
+    rw [ih (c :: cur) (fun x hx => h x (List.mem_cons_of_mem _ hx))]
+    simp
+
+theorem scanLines_fileText (lines : List Str) (h : ∀ l ∈ lines, ∀ c ∈ l, c ≠ '\n' ∧ c ≠ '\r') :
+    scanLines (fileText lines) = lines := by
+  unfold scanLines
+  induction lines with
+  | nil => simp [fileText, scanLinesAux]
+  | cons l t ih =>
+    have hl := h l (by simp)
+    have : fileText (l :: t) = l ++ '\n' :: fileText t := by simp [fileText]
+    rw [this, scanLinesAux_line l _ [] (fun c hc => (hl c hc).1), ih (fun x hx => h x (List.mem_cons_of_mem _ hx))]
+    congr 1
+    simp only [List.append_nil]
+    unfold stripCR
+    cases hr : l.reverse with
+    | nil => simp [List.reverse_eq_nil_iff.mp hr]
+    | cons a r =>
+      have ha : a ≠ '\r' := (hl a (List.mem_reverse.mp (by rw [hr]; simp))).2
+      have : (a :: r).reverse = l := by rw [← hr, List.reverse_reverse]
+      split
+      · rename_i heq; simp only [List.cons.injEq] at heq; exact absurd heq.1 ha
+      · exact this
+
+theorem clean_no_newline (e : Str) (h : CleanName e) : ∀ c ∈ e, c ≠ '\n' ∧ c ≠ '\r' := by
+  intro c hc
+  have := (h.2 c hc).1
+  constructor
+  · intro e'; subst e'; simp [isSpace] at this
+  · intro e'; subst e'; simp [isSpace] at this
+
+/-- **the bytes `persist` writes parse back to the names of the snapshot** when every
+name is clean (the header is skipped as a comment). -/
+theorem parseHostFile_fileText (r : Mem) (s : Snap) (hclean : ∀ n ∈ snapNames s, CleanName n) :
+    parseHostFile r (fileText (render s)) = loadNames r (snapNames s) := by
+  unfold parseHostFile
+  have hlines : ∀ l ∈ render s, ∀ c ∈ l, c ≠ '\n' ∧ c ≠ '\r' := by
+    intro l hl
+    unfold render at hl
+    rcases List.mem_cons.mp hl with rfl | hl
+    · decide
+    · exact clean_no_newline l (hclean l hl)
+  rw [scanLines_fileText _ hlines]
+  congr 1
+  unfold render
+  have hh : parseLine headerLine = [] := by decide
+  simp only [List.flatMap_cons, hh, List.nil_append]
+  show List.flatMap parseLine (snapNames s) = snapNames s
+  generalize snapNames s = ns at hclean
+  induction ns with
+  | nil => rfl
+  | cons n t ih =>
+    simp only [List.flatMap_cons, parseLine_clean n (hclean n (by simp)), List.singleton_append]
+    rw [ih (fun x hx => hclean x (List.mem_cons_of_mem _ hx))]
+
 end SdnsVerif.Lemmas.Blocklist
